@@ -447,12 +447,20 @@ def judge_lending(script, real):
     parent = {}
     copies = {}
     ncall = 0
+    running = []           # handles a host function of another thread is running on
     for i, (l, r) in enumerate(zip(script, real)):
         t = l.split()
         if not t:
             continue
         op = t[0]
         ok = r.startswith("ok")
+        if op == "threaduse" and r == "ok entered=bool:t":
+            running.append(t[1])
+        elif op == "threadjoin" and running:
+            h = running.pop()
+            if ok and call_of.get(h) in ended:
+                out.append((i, "inflight", "a host function entered on %s from another thread during the call was still using the "
+                            "host object after the call had returned: `%s` -> `%s`" % (h, l, r)))
         if op == "reset":
             frames, ended, call_of, parent, copies, ncall = [], set(), {}, {}, {}, 0
         elif op == "lend" and ok:
@@ -609,6 +617,8 @@ def run_scripts(ctx, st, scripts, label):
                 cls = "derived_reference_outlives_lending_call"
             if kind == "alias" and "orphaned=true" in flags:
                 cls = "intermediate_drop_releases_ancestor_borrow"
+            if any(l.startswith("threaduse") for l in sc[:i + 1]) and "stale-root=true" in flags:
+                cls = "use_in_other_thread_spans_return"
             record_violation(st, cls, sc[:i + 1], msg, real[:i + 1], model[:i + 1])
         if not agree and not viols:
             k = next((j for j, (a, b) in enumerate(zip(real, model)) if a != b), min(len(real), len(model)))
@@ -958,7 +968,7 @@ def parse_sv(s, p=None):
     return r
 
 
-LEND_OPS = ("lend", "end", "copy", "drop", "get", "getro", "set", "derive", "reset")
+LEND_OPS = ("lend", "end", "copy", "drop", "get", "getro", "set", "derive", "reset", "threaduse", "threadjoin")
 
 
 def load_corpus():
@@ -986,6 +996,10 @@ FINDING_TEXT = {
     "derived_reference_outlives_lending_call":
         "LifetimeGuard::drop frees only `count` nursery entries: with more derived references (MarkerWrapper7/8) than lent objects "
         "the owners of earlier derived pointers stay in the thread-local nursery and a stashed derived reference reads host memory after the call returned",
+    "use_in_other_thread_spans_return":
+        "a host function running on a lent handle in another thread holds the upgraded (strong) owner pointer: when the lending "
+        "call returns meanwhile, free_n drops only the nursery's own strong reference, the function keeps using the host's "
+        "object, and stashed copies of the handle upgrade again while it runs",
     "intermediate_drop_releases_ancestor_borrow":
         "Drop for BorrowedObject clears the parent's child_borrow_flag although a reference derived from the dropped one is alive: "
         "the lent object is mutably usable while a grandchild reference into it is live",
@@ -1050,7 +1064,7 @@ def run(ctx):
                 if rrc != 0 or len(real) != len(cand) or real != model:
                     return False
                 vs = judge_lending(cand, real)
-                want = "stale" if cls.startswith("derived") else "alias"
+                want = {"derived_reference_outlives_lending_call": "stale", "use_in_other_thread_spans_return": "inflight"}.get(cls, "alias")
                 return any(k == want for _, k, _ in vs)
             lines = shrink_script(lines, still)
         body = "# %s\n# %s\n# seen on %d inputs of this run; minimal witness:\n%s\n" % (cls, msg, count, "\n".join(lines))
